@@ -830,3 +830,37 @@ PROPS["C02"] = {
     "outside": "accuracy of libm and special.*; the integer scalar types, type conversions and cross-type agreement (not yet encoded); IEEE special values",
     "assumptions": ["floats read as reals; libm heads uninterpreted (value equality means: same head applied to the same argument, or provable from the lemma instances)"],
 }
+
+# ----------------------------------------------------------------------------- C14
+C14_NFAM = 12
+
+
+def c14_jobs(tier):
+    jobs = []
+
+    def J(f, a, **kw):
+        jobs.append(dict({"pkg": ZZ, "func": f, "args": a, "mode": "real", "intmode": "int"}, **kw))
+    for fam in range(C14_NFAM):
+        for kind in ((0,) if tier == "quick" else (0, 1)):
+            J("verif_C14_formula", [fam, kind])
+            J("verif_C14_support", [fam, kind], mode="fp")
+            J("verif_C14_ctor", [fam, kind], mode="fp")
+        J("verif_C14_roundtrip", [fam], mode="fp")
+    return jobs
+
+
+PROPS["C14"] = {
+    "overlay": [RT, ("zzverif/c04.go", "zzverif/c04.go"), ("zzverif/c14.go", "zzverif/c14.go")],
+    "patterns": ["./zzverif"],
+    "mode": "real", "intmode": "int",
+    "jobs": c14_jobs,
+    "reach": ["formula", "support", "ctor", "roundtrip"],
+    "replay_tol": 1e-6,
+    "job_budget_ms": {"quick": 120000, "thorough": 600000},
+    "selftest_vars": [],
+    "bounds": {"quick": "12 scalar families (Normal, Laplace, Cauchy, Exponential, Pareto, Gamma, Poisson, Geometric, PowerLaw, GPareto xi>0, ChiSquared, Beta) with symbolic valid parameters: log-density = textbook formula on the support (real interpretation, "
+                        "log/lgamma heads by name, exp-homomorphism), exactly -Inf strictly outside the support (fp), constructors reject parameters strictly outside the valid region (fp), Clone / SetParameters(GetParameters()) / Real64-held parameters give the same log-density (fp, UF-first)",
+               "thorough": "also Real64-held parameters for the formula, support and constructor obligations"},
+    "outside": "normalisation (integration), monotonicity and limits of the CDFs, Cdf' = Pdf, vector and matrix families, wrappers (log-transform, translation, mixtures), the remaining scalar families (Binomial, NegativeBinomial, Categorical, GEV, GeneralizedGamma, Delta), behaviour on the boundary of support / parameter region",
+    "assumptions": ["floats read as reals for the formula obligations; log, lgamma, log1p uninterpreted by name"],
+}
